@@ -218,6 +218,19 @@ CLAIMED["C08"] = dict(
     technique="decision tables + taint provenance + path-shape rules over MIR",
 )
 
+CLAIMED["C04"] = dict(
+    category="other",
+    text=("Only geo's hand-off to the i_overlay engine is decided: R4.1 OpType -> OverlayRule identity on names; R4.2 boolean_op passes rings(self) "
+          "as subject and rings(other) as clip with EvenOdd, the four named operations pass their own OpType, rings() is exterior-then-interiors "
+          "flat-mapped over members; R4.3 ring_to_shape_path drops exactly the closing coordinate; R4.4 polygon_from_shape closes and reverses "
+          "each path, first path exterior, through Polygon::new; R4.5 unary_union probes the winding per ring until found, Clockwise -> Positive "
+          "else Negative, rule Subject; R4.6 clip constants (EvenOdd, ClipRule{invert: parameter, boundary_included: true}). The set-theoretic "
+          "result, snapping tolerance, area identities and thread schedules are computed inside the dependency and are NOT decided."),
+    design_ref="DESIGN.md §4 C04, §5",
+    note="Thin by nature: the property's main clauses live in i_overlay. Trusted: the engine computes the requested overlay.",
+    technique="call-argument provenance and constant tables over MIR path tables",
+)
+
 NOT_YET = "rule set not implemented in this revision of /verif (see DESIGN.md §7 build order); nothing is claimed"
 NA = {}
 
